@@ -130,7 +130,19 @@ func Raw(sp *spec.Spec, sv *spec.Service, m *spec.Method, tree any, route int) (
 		if !ok {
 			continue
 		}
-		if arr, isArr := v.([]any); isArr {
+		if mm, isMap := vtree.IsMap(v); isMap {
+			// name[key]=value, one pair per value
+			for k, e := range mm {
+				name := l.WireName() + "[" + TextOf(k) + "]"
+				if arr, isArr := e.([]any); isArr {
+					for _, x := range arr {
+						q.Add(name, TextOf(x))
+					}
+				} else {
+					q.Add(name, TextOf(e))
+				}
+			}
+		} else if arr, isArr := v.([]any); isArr {
 			for _, e := range arr {
 				q.Add(l.WireName(), TextOf(e))
 			}
